@@ -33,8 +33,8 @@ func runC19(c *fw.Ctx) {
 
 func c19History(k *fw.K) {
 	r := k.Rng
-	class := r.Intn(5)
-	cname := []string{"small-ints", "reals", "with-NaN", "extreme-batches", "equality-unspecified(Inf, differences below 1e-240)"}[class]
+	class := r.Intn(6)
+	cname := []string{"small-ints", "reals", "with-NaN", "extreme-batches", "equality-unspecified(Inf, differences below 1e-240)", "neighbouring-doubles"}[class]
 	exact := class != 4 // class 4: only partition invariance, range and rejected-call neutrality are decided
 	nb := 1 + r.Intn(60)
 	if r.Intn(2) == 0 {
@@ -69,6 +69,15 @@ func c19History(k *fw.K) {
 			case 0, 3:
 				t[i] = float64(r.Intn(3))
 				p[i] = float64(r.Intn(3))
+			case 5: // distinct ADJACENT float64 values of ordinary magnitude (0.1+0.2 against 0.3): different labels
+				t[i] = []float64{0.3, 1, 2, 0.1, 7, 1e6, -3, 9007199254740992}[r.Intn(8)]
+				p[i] = t[i]
+				switch r.Intn(3) {
+				case 0:
+					p[i] = math.Nextafter(t[i], math.Inf(1))
+				case 1:
+					p[i] = math.Nextafter(t[i], math.Inf(-1))
+				}
 			case 1:
 				t[i] = r.NormFloat64() * 10
 				p[i] = t[i]
@@ -112,8 +121,8 @@ func c19History(k *fw.K) {
 	last, lastSet, rejectedJustNow := 0., false, false
 	zeroAfterMatch, sawMatch := false, false
 	var played []batch // every accepted batch in the order it was fed
-	var other *metrics.Accuracy
-	omatched, ototal := 0, 0
+	var other, snap *metrics.Accuracy
+	omatched, ototal, snapMatched, snapTotal := 0, 0, 0, 0
 	result := func(tag string) bool {
 		var v float64
 		var err error
@@ -239,6 +248,26 @@ func c19History(k *fw.K) {
 		}
 		if !account(b, "after batch "+itoa(bi)) {
 			return
+		}
+		// a VALUE COPY of the metric taken mid-history is an independent metric holding the counts of that moment
+		if !long && snap == nil && r.Intn(6) == 0 {
+			cp := *acc
+			snap, snapMatched, snapTotal = &cp, matched, total
+			k.Count("value_copies_taken_mid_history", 1)
+		} else if snap != nil && r.Intn(2) == 0 {
+			var sv float64
+			if pn := call(func() { sv, err = snap.Result() }); pn != nil || err != nil {
+				k.Failf("Result of a value copy of the metric: panic=%v err=%v", pn, err)
+				return
+			}
+			want := 0.
+			if snapTotal > 0 {
+				want = float64(snapMatched) / float64(snapTotal)
+			}
+			if exact && sv != want {
+				k.Failf("a value copy of the metric taken after %d of %d matches reports %v after the original went on accumulating (expected %v)", snapMatched, snapTotal, sv, want)
+				return
+			}
 		}
 		// a second metric object (a "validation" accuracy next to the "training" one) is alive and fed in between
 		if !long && r.Intn(3) == 0 {
